@@ -326,36 +326,11 @@ def continue_raised(world):
 
 
 def classify(sc, world, cls, probs):
-    """Known-finding class of a failing run (decidable on the scenario and the trace), or None."""
+    """Known-finding class of a failing run (decidable on the trace), or None."""
     if not probs:
         return None
-    adj = sc.get("adj", {})
-    hw = adj.get("outbuf_high_watermark", 16777216)
-    sb = adj.get("send_bytes", 1)
     if continue_raised(world):
         return "kf_c05_continue_raises"
-    f = world.final
-    if cls == "overrun":
-        return "kf_c05_sendbytes_gt_watermark" if sb > hw else None
-    if cls != "quiescent":
-        return None
-    if all(p.startswith("producer ") for p in probs) and not f["connected"] and not f["in_map"]:
-        # only a producer that started its wait AFTER handle_close had set connected = False
-        # (and given its notify)
-        ev = world.sched.events
-        closed_at = min([i for i, e in enumerate(ev)
-                         if (e[1] == "decide" and e[2][0] == "connected") or e[1] == "map_del"], default=None)
-        ob = object.__getattribute__(world.channel, "outbuf_lock").name
-        names = [n for n, where in parked(world).items() if where == "outbuf_cv"]
-        last_wait = [max([i for i, e in enumerate(ev) if e[0] == n and e[1] == "wait" and e[2] == ob], default=-1)
-                     for n in names]
-        if closed_at is not None and last_wait and all(i > closed_at for i in last_wait):
-            return "kf_c05_park_after_close"
-        return None
-    if hw == 0 and any(p.startswith("producer ") for p in probs) and \
-            all(p.startswith("producer ") or p.startswith("requests holds") or p.startswith("client bytes unread")
-                for p in probs):
-        return "kf_c05_watermark0"                # F23
     return None
 
 
@@ -706,10 +681,10 @@ EXPECTED_SHAPE = {
         '{ or( R:total_outbufs_len cmp:Gt:0 , R:will_close , R:close_when_flushed , ) return }'
     ),
     'channel.py:HTTPChannel.handle_write': (
-        '{ if not R:requests { m:_flush_some_if_lockable } else { if R:total_outbufs_len cmp:GtE: { m:_flush_'
-        'some_if_lockable } else { } } m:_flush_exception v:flush call:_flush_exception() if and( R:close_whe'
-        'n_flushed , not R:total_outbufs_len , ) { W:close_when_flushed W:will_close } if R:will_close { m:ha'
-        'ndle_close call:handle_close() } }'
+        '{ if not R:requests { m:_flush_some_if_lockable } else { if or( R:total_outbufs_len cmp:GtE: , R:tot'
+        'al_outbufs_len cmp:Gt: , ) { m:_flush_some_if_lockable } else { } } m:_flush_exception v:flush call:'
+        '_flush_exception() if and( R:close_when_flushed , not R:total_outbufs_len , ) { W:close_when_flushed'
+        ' W:will_close } if R:will_close { m:handle_close call:handle_close() } }'
     ),
     'channel.py:HTTPChannel._flush_exception': (
         '{ if v:flush { try { v:flush v:do_close return } except:OSError { if { } W:will_close return } excep'
@@ -738,8 +713,8 @@ EXPECTED_SHAPE = {
     ),
     'channel.py:HTTPChannel._flush_some_if_lockable': (
         '{ if R:outbuf_lock m:acquire call:acquire() { try { m:_flush_some v:do_close call:_flush_some(do_clo'
-        'se=do_close) if R:total_outbufs_len cmp:Lt: { R:outbuf_lock m:notify call:notify() } } finally { R:o'
-        'utbuf_lock m:release call:release() } } }'
+        'se=do_close) if R:total_outbufs_len cmp:LtE: { R:outbuf_lock m:notify call:notify() } } finally { R:'
+        'outbuf_lock m:release call:release() } } }'
     ),
     'channel.py:HTTPChannel._flush_some': (
         '{ while { R:outbufs v:outbuf while v:outbuflen cmp:Gt:0 { v:outbuf m:get call:get() m:send v:chunk v'
@@ -766,10 +741,10 @@ EXPECTED_SHAPE = {
         ') } } } v:num_bytes return } return }'
     ),
     'channel.py:HTTPChannel._flush_outbufs_below_high_watermark': (
-        '{ if R:total_outbufs_len cmp:Gt: { R:outbuf_lock with { m:_flush_exception m:_flush_some call:_flush'
-        '_exception(do_close=False) if v:exception { m:pull_trigger call:pull_trigger() R:outbuf_lock m:wait '
-        'call:wait() return } while and( R:connected , R:total_outbufs_len cmp:Gt: , ) { m:pull_trigger call:'
-        'pull_trigger() R:outbuf_lock m:wait call:wait() } } } }'
+        '{ if R:total_outbufs_len cmp:Gt: { R:outbuf_lock with { if not R:connected { return } m:_flush_excep'
+        'tion m:_flush_some call:_flush_exception(do_close=False) if v:exception { m:pull_trigger call:pull_t'
+        'rigger() R:outbuf_lock m:wait call:wait() return } while and( R:connected , R:total_outbufs_len cmp:'
+        'Gt: , ) { m:pull_trigger call:pull_trigger() R:outbuf_lock m:wait call:wait() } } } }'
     ),
     'channel.py:HTTPChannel.service': (
         '{ R:requests if v:request { v:request } else { v:request } try { if and( R:connected , not R:will_cl'
